@@ -127,7 +127,55 @@ impl Scenario for C06 {
         }
         aggs.push(rng.range(4, hi) as u8);
         let mut acts = vec![];
+        // one run in eight starts with a pair of inputs that straddles a flavor threshold across a
+        // fold: worker 0 (lg_k L1) holds T2 + j coupons, T2 = 3 * 2^L2 / 32 being the sparse limit at
+        // the smaller lg_k L2 of worker 1, of which j + 1 pairs collapse when rows are folded to 2^L2,
+        // so the folded count is T2 - 1; worker 1 holds a single coupon that the fold already contains.
+        let mut workers = workers;
+        let straddle = nw >= 2 && hi >= 8 && rng.chance(1, 8);
+        if straddle {
+            let l2 = rng.range(6, hi - 1) as u8;
+            let l1 = rng.range(l2 as u64 + 1, hi) as u8;
+            workers[0] = l1;
+            workers[1] = l2;
+            aggs[0] = rng.range(l1 as u64, hi.max(l1 as u64)) as u8;
+            if rng.chance(1, 2) {
+                aggs[1] = aggs[0];
+            }
+            let t2 = 3usize * (1usize << l2) / 32;
+            let j = rng.usize_below(4).min(t2.saturating_sub(2));
+            let k2 = 1u32 << l2;
+            let mut rows: Vec<u32> = (0..k2).collect();
+            rng.shuffle(&mut rows);
+            let base: Vec<u32> = rows[..t2 - 1].iter().map(|&r| (r << 6) | rng.geometric(5)).collect();
+            for &rc in &base {
+                acts.push(Act::WUpdate { w: 0, rc });
+            }
+            for &rc in base.iter().take(j + 1) {
+                // same column, row + 2^L2 * odd: distinct at L1, identical after folding
+                let hi_rows = (1u32 << l1) / k2;
+                let lift = 1 + rng.below(hi_rows as u64 - 1) as u32;
+                acts.push(Act::WUpdate { w: 0, rc: rc + ((lift * k2) << 6) });
+            }
+            acts.push(Act::WUpdate { w: 1, rc: base[0] });
+            let order = rng.chance(1, 2);
+            for step in 0..2 {
+                let w = if (step == 0) == order { 0 } else { 1 };
+                acts.push(Act::Flush { w, form: rng.below(2) as u8, to: vec![0] });
+                acts.push(Act::Deliver { pick: 0, keep: false });
+                acts.push(Act::Check { a: 0 });
+            }
+            for step in 0..2 {
+                let w = if (step == 0) == order { 1 } else { 0 };
+                acts.push(Act::Flush { w, form: rng.below(2) as u8, to: vec![1] });
+                acts.push(Act::Deliver { pick: 0, keep: false });
+                acts.push(Act::Check { a: 1 });
+            }
+        }
         for (w, &lg_k) in workers.iter().enumerate() {
+            if straddle && w < 2 {
+                continue;
+            }
             let k = 1usize << lg_k;
             // land in every flavor
             let n = match rng.below(6) {
